@@ -31,10 +31,12 @@ CORPUS = os.path.join(lib.VERIF, "corpus", "C01")
 SCHEMA_V = os.path.join(lib.COQ, "Gen", "YangSchema.v")
 HARNESS = os.path.join(lib.HGO, "harness")
 MEM_KB = 6 * 1024 * 1024          # ulimit -v of every harness child
-CHUNK_TIMEOUT = 60                # seconds, one chunk of cases
+CHUNK_TIMEOUT = 45                # seconds, one chunk of cases
 SINGLE_TIMEOUT = 20               # seconds, one case alone
 CONFIRM_TIMEOUT = 90              # seconds, a case that timed out alone is run once more, machine quiet
-CMD = ["bash", "-c", "ulimit -v %d; exec %s run" % (MEM_KB, HARNESS)]
+STACK_MB = 256                    # Go stack limit of the fuzzing children (the runtime's default is 1 GB)
+CMD = ["bash", "-c", "ulimit -v %d; export VERIF_MAXSTACK_MB=%d; exec %s run" % (MEM_KB, STACK_MB, HARNESS)]
+CMD_DEFAULT_STACK = ["bash", "-c", "ulimit -v %d; exec %s run" % (MEM_KB, HARNESS)]
 
 
 def hx(s):
@@ -214,6 +216,40 @@ class Table:
         ty = self.names.get(kw)
         return [f["key"] for f in self.structs.get(ty, []) if f["req"] or kw in f["reqkinds"]]
 
+    def has_ext(self, kw):
+        return any(f["kind"] == "FExt" for f in self.structs.get(self.names.get(kw), []))
+
+    def minimal(self, kw, depth=0):
+        subs = [self.minimal(k, depth + 1) for k in self.required(kw)] if depth < 6 else []
+        return [kw, "r", subs or None]
+
+    def sanitise(self, node, dist=None):
+        """make the statement acceptable to the table-driven AST builder: drop substatements the struct has no
+        field for, repeated single-valued ones and those required for the other keyword only; add required ones"""
+        kw, subs = node[0], node[2]
+        if kw not in self.names:
+            return
+        fields = {f["key"]: f for f in self.fields(kw)}
+        seen, out = set(), []
+        for c in subs or []:
+            k = c[0]
+            if ":" in k:
+                if self.has_ext(kw):
+                    out.append(c)
+                continue
+            f = fields.get(k)
+            if f is None or (f["kind"] == "FSingle" and k in seen) or (f["reqkinds"] and kw not in f["reqkinds"]):
+                if dist is not None:
+                    dist["sanitised-away"] += 1
+                continue
+            seen.add(k)
+            self.sanitise(c, dist)
+            out.append(c)
+        for r in self.required(kw):
+            if r not in seen:
+                out.append(self.minimal(r))
+        node[2] = out if (out or subs is not None) else None
+
 
 PSEUDO = ["Name", "Statement", "Parent", "Ext"]
 
@@ -231,10 +267,10 @@ def classify(obs):
     return "ok"
 
 
-def run_single(line, cwd, timeout=SINGLE_TIMEOUT):
+def run_single(line, cwd, timeout=SINGLE_TIMEOUT, cmd=None):
     """one case in its own process -> (class, observation or stderr excerpt)"""
     try:
-        p = subprocess.run(CMD, input=line + "\n", stdout=subprocess.PIPE, stderr=subprocess.PIPE, text=True,
+        p = subprocess.run(cmd or CMD, input=line + "\n", stdout=subprocess.PIPE, stderr=subprocess.PIPE, text=True,
                            cwd=cwd, timeout=timeout, errors="replace")
     except subprocess.TimeoutExpired:
         return "timeout", "no answer within %ds" % timeout
@@ -269,11 +305,11 @@ def signature(cls, obs):
     obs = s
     m = re.search(r"msg=(.*?) at=(\S*)", obs)
     if m:
-        s = m.group(1) + " @" + "<".join(m.group(2).split("<")[:2])
+        s = m.group(1) + " @" + m.group(2).split("<")[0]
     elif cls == "fatal":
         m = re.search(r"(fatal error: [^|]*|panic: [^|]*|signal: \w+)", obs)
         fr = re.search(r"at=(\S*)", obs)
-        s = (m.group(1).strip() if m else obs[:80]) + " @" + ("<".join(fr.group(1).split("<")[:2]) if fr else "")
+        s = (m.group(1).strip() if m else obs[:80]) + " @" + (fr.group(1).split("<")[0] if fr else "")
     s = re.sub(r"\*yang\.\w+", "*yang.T", s)
     s = re.sub(r"0x[0-9a-f]+", "0x?", s)
     s = re.sub(r"\d+", "N", s)
@@ -285,8 +321,8 @@ def run_chunk(chunk, cwd):
     try:
         out = lib.run_sharded(CMD, chunk, cwd=cwd, shards=1, timeout=CHUNK_TIMEOUT)
     except subprocess.TimeoutExpired:
-        return ["UNRESOLVED"] * len(chunk)
-    except OSError as e:
+        return ["UNRESOLVED-TIMEOUT"] * len(chunk)
+    except OSError:
         return ["UNRESOLVED"] * len(chunk)
     return ["UNRESOLVED" if (o.startswith("CRASH:") or o == "NOT-RUN") else o for o in out]
 
@@ -310,14 +346,15 @@ def run_all(lines, cwd, stats):
             rounds += 1
             nxt = []
             for idx, out in ex.map(job, todo):
-                bad = [i for i, o in zip(idx, out) if o == "UNRESOLVED"]
+                bad = [i for i, o in zip(idx, out) if o.startswith("UNRESOLVED")]
                 for i, o in zip(idx, out):
-                    if o != "UNRESOLVED":
+                    if not o.startswith("UNRESOLVED"):
                         obs[i] = (classify(o), o)
                 if not bad:
                     continue
                 stats["chunks_split"] += 1
-                if len(bad) <= 2 or len(singles) + len(bad) > 4000:
+                # a chunk that timed out goes to single runs at once (every further round would cost the time limit)
+                if len(bad) <= 2 or out[0] == "UNRESOLVED-TIMEOUT" or len(singles) + len(bad) > 4000:
                     singles += bad
                 else:
                     mid = len(bad) // 2
@@ -458,7 +495,7 @@ class SetGen:
             for _ in range(rnd.choice([0, 0, 1, 2])):
                 u.revisions.append(rnd.choice(DATES[:4]))
             u.version = rnd.choice([None, None, "1", "1.1", "1.1"])
-            u.noisy = rnd.random() < 0.12
+            u.noisy = rnd.random() < 0.08
         # definitions (names only): same names may be defined in several units
         for u in us:
             for kind, pool, cnt in (("typedef", "T", [0, 1, 2, 3]), ("grouping", "G", [0, 1, 2, 3]),
@@ -1150,7 +1187,10 @@ class SetGen:
             elif q < 0.15:
                 s += rnd.choice(["/..", "/.", "/", "/../..", "/" + pfx + ":"])
                 mode += "+dots"
-            self.dist[label + mode] += 1
+            base, _, var = mode.partition("+")
+            self.dist[label + base] += 1
+            for v in var.split("+") if var else []:
+                self.dist["path-variation:" + v] += 1
             return s
         if r < 0.8:
             self.dist[label + "nonexistent"] += 1
@@ -1221,6 +1261,8 @@ class SetGen:
         out = []
         for u in self.units:
             top = [[u.kind, u.name, self.header(u) + u.body]]
+            if not u.noisy:
+                self.tb.sanitise(top[0], self.dist)
             self.finish(top)
             t = render(top)
             if u.tail == "DROP-LAST-BRACE":
@@ -1481,8 +1523,7 @@ def load_corpus():
         except ValueError:
             continue
         for c in d if isinstance(d, list) else [d]:
-            enc = (lambda s: s.encode("utf-8", "surrogateescape")) if "hex" not in c else bytes.fromhex
-            if c.get("cmd", "hist") in ("hist", "process"):
+            if "texts" in c:
                 texts = [(n, bytes.fromhex(t) if c.get("hex") else t) for n, t in c["texts"]]
                 ops = c.get("ops") or ",".join("L%d" % i for i in range(len(texts))) + ",P"
                 for cmd in ([c["cmd"]] if "cmd" in c else ["hist", "process"]):
@@ -1560,8 +1601,8 @@ def gen_chunk(arg):
 
 def plan(tier):
     if tier == "quick":
-        return [(16, 150, 110, 110)]            # (chunks, sets, mutations, noise texts) per chunk
-    return [(480, 150, 110, 110)]
+        return [(40, 150, 110, 110)]            # (chunks, sets, mutations, noise texts) per chunk
+    return [(960, 150, 110, 110)]
 
 
 # ------------------------------------------------------------------ minimisation
@@ -1812,7 +1853,7 @@ def run(res, tier, seed, proof):
             # D13: one input of the listed shape, alone, under the memory limit
             n = 5000000
             line = "parse " + hx(b"a{" * n)
-            cls, o = run_single(line, cwd, timeout=600)
+            cls, o = run_single(line, cwd, timeout=600, cmd=CMD_DEFAULT_STACK)
             evaluations += 1
             outcomes["d13:" + cls] += 1
             if cls == "fatal" and stack_depth_shape(line, o):
@@ -1832,7 +1873,7 @@ def run(res, tier, seed, proof):
     table_fields = sum(1 for k in dist if k.startswith("table-field:"))
     cov = dict(
         evaluations=evaluations, distinct_nontrivial=nontrivial,
-        rule="every case runs in a child process of the Go harness (ulimit -v %d kB, empty working directory, chunk "
+        rule="every case runs in a child process of the Go harness (ulimit -v %d kB, Go stack limit 256 MB, empty working directory, chunk "
              "timeout %ds, single-case timeout %ds, confirmed with %ds); outcome ok | panic | fatal | timeout | broken; "
              "non-trivial = at least one text was accepted and Process ran (hist), or a process dump was produced"
              % (MEM_KB, CHUNK_TIMEOUT, SINGLE_TIMEOUT, CONFIRM_TIMEOUT),
